@@ -159,9 +159,9 @@ Proof. split; vm_compute; reflexivity. Qed.
    big-endian byte loop), text/byte strings, keys, the object splice, booleans, signed and unsigned integers with
    their slice forms, the tagged byte strings, the embedded JSON/CBOR wrappers and the float32/float64 encoders with
    their slice forms return exactly what the model computes, for every argument (slices shorter than 2^62 elements,
-   integers in their int64 range), as do the narrower integer widths that forward to these. AppendStrings and
-   the integer timestamp are translated but their equality with the model is not proved; they stay tied by the
-   byte-exact correspondence run (whose shards also evaluate the translation, Harness/C09H.v). ---- *)
+   integers in their int64 range), as do the narrower integer widths that forward to these, AppendStrings and the
+   whole-second (integer) timestamp. Not translated (outside the subset: float arithmetic, interfaces, net.IPNet):
+   the float timestamp, durations, AppendInterface/Type/IPPrefix/Stringer - tied by the byte-exact correspondence. ---- *)
 Theorem C09_source_refines_model : Proofs.SrcCborP.cbor_source_refinement.
 Proof. exact Proofs.SrcCborP.cbor_source_refines_model. Qed.
 
